@@ -1,6 +1,7 @@
 SPECIFICATION Spec
 CONSTANTS Langs <- LangsAll
 MaxF <- MaxFThorough
+AllBits = TRUE
 FullPairs = FALSE
 Precs <- PrecsAll
 Vers <- VersAll
